@@ -162,6 +162,7 @@ class Interp:
         self.trace = {}
         self.frames = []
         self.loop_stack = []
+        self.seen_aggdecl = set()
 
     # -- bookkeeping ------------------------------------------------------
     def note(self, k, n=1):
@@ -263,6 +264,10 @@ class Interp:
                 v = zero(s.ty, self.p)
                 if self.loop_stack:
                     self.note("decl-in-loop")
+                    if s.ty[0] in ("a", "st"):
+                        if id(s) in self.seen_aggdecl:
+                            self.note("aggregate-redeclared-in-loop")
+                        self.seen_aggdecl.add(id(s))
             self.frames[-1][-1][s.name] = v
         elif isinstance(s, M.ExprStmt):
             self.eval(s.e)
